@@ -97,6 +97,15 @@ func mailbox.(*DirHandler).Prepare(h) (err)
   props C10
   ensures fresh-deferrals: h.deferred != nil && (forall k :: !haskeyid(h.deferred, k))
 
+func mailbox.LoadMessageDir(dirPath) (msgs, err)
+  props C10
+  ensures messages: forall k :: 0 <= k && k < len(msgs) ==> msgs[k] != nil
+  loop 0 invariant messages: forall k :: 0 <= k && k < len(msgs) ==> msgs[k] != nil
+
+func mailbox.OpenMessage(path) (m, err)
+  props C10
+  ensures nonnil: err == nil ==> m != nil
+
 # GetOutbound: every message that is returned went through the removal of the
 # three mailbox-private headers in the same loop iteration
 ghost var gStrip1 *fbb.Message
